@@ -11,8 +11,10 @@ import time
 CHECKS = {
     "C01": "mc.checks.tablefam",
     "C02": "mc.checks.tablefam",
+    "C05": "mc.checks.c05",
     "C07": "mc.checks.tablefam",
     "C08": "mc.checks.c08",
+    "C09": "mc.checks.c09",
     "C10": "mc.checks.c10",
     "C17": "mc.checks.c17",
     "C19": "mc.checks.c19",
